@@ -19,9 +19,8 @@ EXHAUSTIVE = False
 ASSUMPTIONS = ["a Packet is a [188]byte value; data slices have cap = len",
                "views vs copies (aliasing) are observed by goexec only: function Payload/Header return views, method Payload a copy",
                "the model follows /root/work/repo-fixed (F6, F7 repaired, C05 guards)"]
-PARTIAL = ("SetAdaptationFieldControl on its own, the function-style SetPayload of create.go, Create with arbitrary option lists and "
-           "CreatePacketWithPayload are tied by the correspondence only (fidelity cases); the full statements are kept in "
-           "Properties/C02.v as C02_create_packet_with_payload_full")
+PARTIAL = ("SetAdaptationFieldControl on its own, the function-style SetPayload of create.go, and Create with arbitrary option lists "
+           "(incl. WithPES) are tied by the correspondence only (fidelity cases)")
 
 FLAG_PCR, FLAG_OPCR, FLAG_SPLICE, FLAG_TPD, FLAG_EXT = 0x10, 0x08, 0x04, 0x02, 0x01
 
@@ -159,7 +158,7 @@ def gen(rng, tier):
             out.append(Case("pay.create_dc %d %d" % (pid, cc), kind="create-dc", theorem="C02_create_dc_packet"))
     for ln in list(range(0, 201, 1 if thorough else 7)) + [183, 184, 185]:
         out.append(Case("pay.create_pwp %d %d %s" % (rng.randrange(8192), rng.randrange(16), hx(rb(rng, ln))),
-                        kind="create-with-payload", decides=False, theorem="C02_create_packet_with_payload_full (stated, unproved)"))
+                        kind="create-with-payload", theorem="C02_create_packet_with_payload"))
     for _ in range(150 if not thorough else 5000):
         opts = []
         for _ in range(rng.randrange(0, 6)):
